@@ -901,40 +901,79 @@ Definition l2tp_dispatch_ppp (v : variant) (cfg : dcfg) (frame : bytes) : result
   p <- slf 2 fr;; handle_frame v cfg proto p.
 
 (* ------------------------------------------------------------------ *)
+(* Reference transcription of what the third-party layeh radius.Parse accepts (packet.go Parse, attributes.go
+   ParseAttributes): used as the specification of the third-party check, compared with the real one by the `radparse` cases *)
+Fixpoint rad_attrs (fuel : nat) (b : bytes) : option attrs :=
+  match fuel with
+  | O => None
+  | S f =>
+    match b with
+    | [] => Some []
+    | [_] => None
+    | t :: l :: _ =>
+      if (lenN b <? l) || (l <? 2) || (255 <? l) then None else
+      match rad_attrs f (skipn (N.to_nat l) b) with
+      | Some r => Some ((t, firstn (N.to_nat l - 2) (skipn 2 b)) :: r)
+      | None => None
+      end
+    end
+  end.
+Definition rad_declared (raw : bytes) : N := nth 2 raw 0 * 256 + nth 3 raw 0.
+Definition rad_parse (raw : bytes) : option attrs :=
+  if lenN raw <? 20 then None else
+  let l := rad_declared raw in
+  if (l <? 20) || (4096 <? l) || (lenN raw <? l) then None else
+  rad_attrs (S (length raw)) (firstn (N.to_nat l - 20) (skipn 20 raw)).
+Definition rad_parse_ok (raw : bytes) : bool := match rad_parse raw with Some _ => true | None => false end.
+
 (* plugins/auth/radius/transport.go readLoop: what a datagram from the server's address does to the table of outstanding
-   requests.  A datagram is looked up by identifier, verified against the outstanding request (isAuthenticReply) and only
-   then consumes the slot; everything else — unparseable, unknown identifier, failed Response-/Message-Authenticator — is
-   dropped WITHOUT touching the table.  [claim_first = true] is the alternative that clears the slot at lookup time. *)
-Inductive dgram :=
-| DGarbage                 (* radius.Parse rejects it *)
-| DJunk (id : N)           (* parses, but is not an authentic reply to the outstanding request with this identifier *)
-| DGenuine (id : N).       (* authentic reply to the outstanding request with this identifier *)
-Definition pend_has (id : N) (p : list N) : bool := existsb (N.eqb id) p.
-Definition pend_del (id : N) (p : list N) : list N := filter (fun x => negb (x =? id)) p.
-(* new table, and the identifier whose requester receives the reply (if any) *)
-Definition rad_step (claim_first : bool) (p : list N) (d : dgram) : list N * option N :=
-  match d with
-  | DGarbage => (p, None)
-  | DJunk id => if claim_first && pend_has id p then (pend_del id p, None) else (p, None)
-  | DGenuine id => if pend_has id p then (pend_del id p, Some id) else (p, None)
+   requests (identifier -> Request Authenticator).  The datagram is parsed, looked up by identifier, verified against the
+   outstanding request with isAuthenticReply — the MD5 / HMAC-MD5 computations are the function arguments D1, D2
+   (request authenticator -> datagram -> expected digest) — and only then consumes the slot.  [claim_first = true] is the
+   alternative that clears the slot at lookup time, before the verification. *)
+Definition authentic (raw d1 d2 : bytes) : bool :=
+  match is_authentic_reply raw d1 d2 with Ok true => true | _ => false end.
+Definition pend := list (N * bytes).
+Fixpoint pfind (id : N) (p : pend) : option bytes :=
+  match p with [] => None | (i, ra) :: r => if i =? id then Some ra else pfind id r end.
+Definition pdel (id : N) (p : pend) : pend := filter (fun x => negb (fst x =? id)) p.
+Section RadTable.
+  Variables D1 D2 : bytes -> bytes -> bytes.
+  (* the datagram is an authentic reply to a request that is outstanding *)
+  Definition accepts (p : pend) (raw : bytes) : bool :=
+    rad_parse_ok raw &&
+    match pfind (nth 1 raw 0) p with Some ra => authentic raw (D1 ra raw) (D2 ra raw) | None => false end.
+  Definition rad_step (claim_first : bool) (p : pend) (raw : bytes) : pend * option bytes :=
+    if negb (rad_parse_ok raw) then (p, None) else
+    let id := nth 1 raw 0 in
+    match pfind id p with
+    | None => (p, None)
+    | Some ra => if authentic raw (D1 ra raw) (D2 ra raw) then (pdel id p, Some raw)
+                 else ((if claim_first then pdel id p else p), None)
+    end.
+  Fixpoint rad_run (claim_first : bool) (p : pend) (ds : list bytes) : pend * list bytes :=
+    match ds with
+    | [] => (p, [])
+    | d :: r => let '(p1, o) := rad_step claim_first p d in
+                let '(p2, os) := rad_run claim_first p1 r in
+                (p2, match o with Some x => x :: os | None => os end)
+    end.
+End RadTable.
+(* driver: the digests of every datagram of the history are given (computed by an independent implementation) *)
+Fixpoint digest_of (tbl : list (bytes * bytes)) (raw : bytes) : bytes :=
+  match tbl with [] => [] | (r, d) :: q => if list_eq_dec N.eq_dec r raw then d else digest_of q raw end.
+Fixpoint triples (l : list bytes) : list (bytes * bytes * bytes) :=
+  match l with a :: b :: c :: r => (a, b, c) :: triples r | _ => [] end.
+Definition rad_history (reqauth : bytes) (l : list bytes) : list tok :=
+  let t := triples l in
+  let d1 := map (fun x => (fst (fst x), snd (fst x))) t in
+  let d2 := map (fun x => (fst (fst x), snd x)) t in
+  let '(_, delivered) := rad_run (fun _ => digest_of d1) (fun _ => digest_of d2) false [(1, reqauth)] (map (fun x => fst (fst x)) t) in
+  match delivered with
+  | [] => [TN 0]
+  | raw :: _ => [TN (N.of_nat (length delivered));
+                 tob (match rad_parse raw with Some a => first_attr 18 (fun _ => true) a | None => None end)]
   end.
-Fixpoint rad_run (claim_first : bool) (p : list N) (ds : list dgram) : list N * list N :=
-  match ds with
-  | [] => (p, [])
-  | d :: r => let '(p1, o) := rad_step claim_first p d in
-              let '(p2, os) := rad_run claim_first p1 r in
-              (p2, match o with Some id => id :: os | None => os end)
-  end.
-Definition is_genuine (d : dgram) : bool := match d with DGenuine _ => true | _ => false end.
-(* the harness history: the outstanding request has identifier 1; kinds 0 forged same id, 1 forged other id, 2 garbage,
-   3 reply signed with another secret, 4 stale reply (other request authenticator), 5 truncated genuine reply,
-   6 one forged datagram for every identifier, 9 the genuine reply *)
-Definition dgrams_of (b : bytes) : list dgram :=
-  flat_map (fun k => if k =? 9 then [DGenuine 1]
-                     else if (k =? 0) || (k =? 3) || (k =? 4) then [DJunk 1]
-                     else if k =? 1 then [DJunk 2]
-                     else if k =? 6 then [DJunk 0; DJunk 1; DJunk 2]
-                     else [DGarbage]) b.
 
 (* ------------------------------------------------------------------ *)
 (* Bounded worker pool / bounded hand-off queue on the receive path:
@@ -1075,7 +1114,8 @@ Definition run (v : variant) (entry : N) (na : list N) (ba : list bytes) : resul
   if entry =? 51 then (rmap pkt4_toks (dhcp_parse b)) else
   if entry =? 52 then (rmap msg4_toks (parse_message4 b)) else
   if entry =? 70 then Ok (pool_burst (arg 0 na) (arg 1 na)) else
-  if entry =? 72 then Ok [tbool (pend_has 1 (snd (rad_run false [1] (dgrams_of b))))] else
+  if entry =? 72 then Ok (rad_history b (skipn 1 ba)) else
+  if entry =? 73 then Ok [tbool (rad_parse_ok b); TN (if rad_parse_ok b then rad_declared b else 0)] else
   if entry =? 71 then Ok (pool_trace false (arg 0 na) pool0 (events_of b)) else
   if entry =? 61 then rmap (fun x => [tbool x]) (is_authentic_reply b (barg 1 ba) (barg 2 ba)) else
   if entry =? 62 then rmap (fun x => [tbool x]) (validate_request_auth b (barg 1 ba)) else
